@@ -173,7 +173,7 @@ int main(int argc, char **argv) {
         { cif_tp *w = nullptr; if (cif_create(&w) == CIF_OK) (void) cif_destroy(w); }
         return rc::check(WRITE_VERSION == 2 ? "C02 cif_write output re-parses to an equivalent CIF" : "C13 CIF 1.1 output is pure and round-trips, or is refused", []() {
             g::DocOpts o; o.dialect = cp::CIF2; o.frame_depth = 3; o.max_frames = 2; o.long_values = true;
-            o.vo.numb_kind = true; o.vo.maxdepth = 3; o.vo.maxlen = 120; o.hard_text = true;
+            o.vo.numb_kind = true; o.vo.maxdepth = 3; o.vo.maxlen = 120; o.hard_text = true; o.vo.long_keys = true;
             if (WRITE_VERSION == 1) {
                 int flavour = *g::range(0, 9);
                 if (flavour < 7) { o.dialect = cp::CIF11; o.vo.prof = g::P_CIF11; o.vo.composites = false; }     // expressible (unless "\n;")
